@@ -1,7 +1,7 @@
 /-
   Props/C18Tables3.lean — C18, continued: the COMPLETE univariate layer (`PolynomialFromString`
   included) and the bivariate ARITHMETIC layer (constructors, arithmetic, `QuoRem`/`Rem`, reduction
-  modulo the ring's ideal, equality, observers) are transparent for precomputed tables.
+  modulo the ring's ideal, `Interpolate`, equality, observers) are transparent for precomputed tables.
 
   Method as in Props/C18Tables2.lean: for records with `OpsAgree F F' V`, `Closed F V` and
   arguments all of whose coefficients satisfy `V` (`Tables.AllM V f` for association lists),
@@ -15,11 +15,9 @@
               uEval uCoef uLc uIn uSetNeg uSetScale uSetCoef uSetZero uEmbed uQuoRem uGcd uInterp
               uEq uObs                                      — the univariate layer is complete
     covered   bCtor (nats ints zero embed regs)  bBin bUn bScale bPow bEval bCoef bLc bIn bSetScale
-              bSetCoef bQuoRem bRem bEq bObs
+              bSetCoef bQuoRem bRem bInterp bEq bObs
     NOT       bCtor "str" (`BPoly.parse`: same argument as `uCtor "str"` through
               `BPoly.stringToMapRx.go`, not carried out)  bCtor "map" (raw decoder, excluded by `noRaw`)
-    NOT       bInterp (uses `times`, `lagrangeBasis`, `coefK` — all already have their lemmas; the fold
-              is not carried out)
     NOT       iNew iCopy iGroebner iPred iXform iGens iObs (ideal registers: needs the invariant
               through `sPoly`/`sPairRems`/`buchberger`/`minimizeLoop`/`reduceBasis`; every one of them
               is a fold over `quoRemLoop`, `mulNoReduce`, `sub`, `normalize`, `lt`, `equal`, which all
